@@ -10,7 +10,7 @@ def pick_mcs_inputs(ctx, n):
     """inputs of the shared trace that ended mcs-based (they have a confidence) plus a few others"""
     mix = pipeline.workload_mix(ctx)
     out = mix["out"] or []
-    mcs = [inp for inp, r in zip(mix["inputs"], out) if r.get("solved_by") == "mcs-based"]
+    mcs = [inp for inp, r in zip(mix["inputs"], out) if r.get("solved_by") == "mcs-based" and pipeline.is_small(inp, 40)]
     other = [inp for inp, r in zip(mix["inputs"], out) if r.get("solved_by") != "mcs-based"]
     rng = ctx.rng
     rng.shuffle(mcs)
@@ -29,6 +29,9 @@ def statement(ctx, runs):
             return
         for i, r in enumerate(out):
             r0 = base[i]
+            if pipeline.hit_by_real_timeout(r) or pipeline.hit_by_real_timeout(r0):
+                ctx.count("row-hit-by-real-timeout(not compared)")
+                continue
             c = r.get("confidence")
             ctx.case(("c13", r["input_reaction"], t), nontrivial=c is not None)
             if r.get("solved_by") == "mcs-based":
